@@ -95,6 +95,18 @@ pub fn cases(tier: Tier) -> Vec<Case> {
                                 }
                             }
                         }
+                        // entries under a listed id that is the base64url / hex TEXT of A's id
+                        for ebc in [11u8, 12, 2, 0] {
+                            for secrets in 1..3u8 {
+                                for variant in 0..2u8 {
+                                    v.push(Case { hmac, hmac_mc, register: false, ctap: false, uv_required, verified, secrets, eval, ebc, allow: 3, variant, len: 32, len2: None, dict: None, secret_len: None, cred_props: 0, no_up: false });
+                                }
+                                if ebc >= 11 {
+                                    v.push(Case { hmac, hmac_mc, register: false, ctap: false, uv_required, verified, secrets, eval, ebc, allow: 2, variant: 0, len: 32, len2: None, dict: None, secret_len: None, cred_props: 0, no_up: false });
+                                }
+                                v.push(Case { hmac, hmac_mc, register: false, ctap: true, uv_required, verified, secrets, eval, ebc, allow: 3, variant: 1, len: 32, len2: None, dict: None, secret_len: None, cred_props: 0, no_up: false });
+                            }
+                        }
                         // CTAP2 level: the authenticator's own salt selection
                         for ebc in [0u8, 2, 3] {
                             for secrets in 0..3u8 {
@@ -177,6 +189,12 @@ struct Inputs {
     for_a: Option<(Vec<u8>, Option<Vec<u8>>)>,
 }
 
+fn text_of_a() -> Vec<u8> {
+    b64::url_nopad(&cred_id(A)).into_bytes()
+}
+fn hex_of_a() -> Vec<u8> {
+    hex(&cred_id(A)).into_bytes()
+}
 fn build_inputs(c: &Case) -> Inputs {
     let len = c.len as usize;
     let l2 = c.len2.map_or(len, usize::from);
@@ -201,6 +219,10 @@ fn build_inputs(c: &Case) -> Inputs {
             *i.last_mut().unwrap() ^= 1;
             i
         }), to_vals(&entry))].into_iter().collect()),
+        // keys that name a LISTED id which is a textual relative of A's id (the base64url text / the
+        // hex text of A's id, as bytes; list kind 3 carries them): entries for another credential
+        11 => Some([(b64::url_nopad(&text_of_a()), to_vals(&entry))].into_iter().collect()),
+        12 => Some([(b64::url_nopad(&hex_of_a()), to_vals(&entry))].into_iter().collect()),
         _ => Some([("*not base64url*".to_string(), to_vals(&entry))].into_iter().collect()),
     };
     let main = PrfIn { eval: eval.as_ref().map(to_vals), eval_by_credential: ebc };
@@ -230,10 +252,11 @@ fn malformed(c: &Case) -> Option<&'static str> {
         }
         return None;
     }
-    if has_entries && c.allow != 2 {
+    if has_entries && c.allow < 2 {
         return Some("per-credential inputs without an allow list");
     }
     match c.ebc {
+        11 | 12 if c.allow != 3 => return Some("unlisted credential key"),
         4 | 7 | 8 | 9 => return Some("unlisted credential key"),
         5 => return Some("empty credential key"),
         6 => return Some("undecodable credential key"),
@@ -284,6 +307,7 @@ fn run_case(c: &Case, store: &Shared<RefStore>, log: &Log) -> Result<Out, String
     let allow = match c.allow {
         0 => None,
         1 => Some(vec![]),
+        3 => Some(vec![cred_id(A), cred_id(B), text_of_a(), hex_of_a()]),
         _ => Some(vec![cred_id(A), cred_id(B)]),
     };
     if c.ctap {
@@ -294,6 +318,8 @@ fn run_case(c: &Case, store: &Shared<RefStore>, log: &Log) -> Result<Out, String
             eval_by_credential: match c.ebc {
                 2 => Some([(cred_id(A).into(), vals(&(pat(0x33, 32), Some(pat(0x44, 32)).filter(|_| c.eval == 2))))].into_iter().collect()),
                 3 => Some([(cred_id(B).into(), vals(&(pat(0x33, 32), None)))].into_iter().collect()),
+                11 => Some([(text_of_a().into(), vals(&(pat(0x33, 32), None)))].into_iter().collect()),
+                12 => Some([(hex_of_a().into(), vals(&(pat(0x33, 32), None)))].into_iter().collect()),
                 _ => None,
             },
         };
@@ -505,7 +531,7 @@ pub fn run(ctx: &Ctx) -> Result<Run, String> {
     let with_results = stats.outcomes.iter().filter(|(k, _)| k.ends_with(":results")).map(|(_, v)| *v).sum::<u64>();
     let mut run = Run::from_stats(
         "model_checking",
-        "complete product authenticator configuration {no hmac-secret, UV-only, with non-UV secret} x evaluation-at-creation x ceremony {register, authenticate} x userVerification {required, discouraged} x user verified {yes,no} x secrets of the target credential(3) x eval {absent, first, first+second} x evalByCredential {absent, empty, used id, other listed id, unlisted id, empty key, non-base64url key} x allow list {absent, empty, [A,B]} x variant {prf, prfAlreadyHashed, both} x input length set, through the Client, plus the CTAP2-level product with per-credential inputs; secrets are read back from the store and every result recomputed with hmac/sha2; plus the complete tree of histories (depth 3, thorough 4) over {PRF assertions with A / B / a credential made in the history / no allow list, plain assertion, registration with PRF, and four out-of-band changes of A's stored record: other secrets, presence-gated secret gone, no hmac-secret data, another key} on ONE long-lived authenticator against fresh authenticators over the same store (three store kinds). Non-trivial = case that reaches the PRF logic (malformed-rejected, results, consent refusal)",
+        "complete product authenticator configuration {no hmac-secret, UV-only, with non-UV secret} x evaluation-at-creation x ceremony {register, authenticate} x userVerification {required, discouraged} x user verified {yes,no} x secrets of the target credential(3) x eval {absent, first, first+second} x evalByCredential {absent, empty, used id, other listed id, unlisted id, empty key, non-base64url key, a listed id that is the base64url / hex text of the used id} x allow list {absent, empty, [A,B]} x variant {prf, prfAlreadyHashed, both} x input length set, through the Client, plus the CTAP2-level product with per-credential inputs; secrets are read back from the store and every result recomputed with hmac/sha2; plus the complete tree of histories (depth 3, thorough 4) over {PRF assertions with A / B / a credential made in the history / no allow list, plain assertion, registration with PRF, and four out-of-band changes of A's stored record: other secrets, presence-gated secret gone, no hmac-secret data, another key} on ONE long-lived authenticator against fresh authenticators over the same store (three store kinds). Non-trivial = case that reaches the PRF logic (malformed-rejected, results, consent refusal)",
         true,
         stats,
     );
